@@ -123,7 +123,7 @@ fn apply(node: &mut Node, i: usize, op: &Op) {
 /// Solo replay of one node's log on the calling thread. Returns the first mismatch.
 fn solo_replay(id: usize, node: &Rec, pass: u32) -> Option<Violation> {
     let kind = node.spec.kind;
-    let mut fresh = on(Side::Reference, || build_spec(&node.spec));
+    let mut fresh = on(Side::Reference, || crate::sut::build_ref(&node.spec));
     let mut seen = 0usize;
     for e in &node.log {
         match e {
@@ -510,6 +510,7 @@ pub fn generate(rng: &mut Rng, tier: Tier, workers: usize) -> Scenario {
         } else if rng.chance(0.5) {
             let mut s = gen::random_spec(rng, tier, None);
             s.kind = base.kind;
+            s.dflt = false; // the parameters were drawn for another kind: build through new()
             s.mode = gen::random_mode(rng, s.kind);
             nodes.push(s);
         } else {
@@ -602,7 +603,7 @@ fn corpus_specs() -> Vec<NodeSpec> {
         let ps: Vec<usize> = if k.n_periods() == 0 { vec![1] } else { vec![1, 2, 3] };
         for m in modes {
             for &p in &ps {
-                v.push(NodeSpec { kind: k, params: Params::new(p, (p % 3) + 1, ((p + 1) % 3) + 1, 2.0), mode: m });
+                v.push(NodeSpec { kind: k, params: Params::new(p, (p % 3) + 1, ((p + 1) % 3) + 1, 2.0), mode: m, dflt: false });
             }
         }
     }
